@@ -1248,8 +1248,7 @@ func (s *server) ReadModifyWriteRow(ctx context.Context, req *btpb.ReadModifyWri
 		resultCol.Cells = []*btpb.Cell{newCell}
 	}
 
-	r, _ = scrubRow(r, cols)
-	tbl.rows.ReplaceOrInsert(r)
+	tbl.updateRow(r) // scrubs, and does not keep a row without cells
 	resultRow, _ = scrubRow(resultRow, cols)
 	return &btpb.ReadModifyWriteRowResponse{Row: resultRow}, nil
 }
